@@ -45,10 +45,13 @@ mutual
     | incdec (l : LVal) (inc post : Bool) (ty : Ty)
     | cast (ty : Ty) (e : Expr)
     | call (f : String) (args : Args)              -- libc function
+    | strlit (bytes : List UInt8)                  -- string literal: a read-only object of its own
+    | sidx (base idx : Expr) (stride : Nat)        -- `&base[idx]` for an array of words / of structs with `stride` members
     deriving Repr
   inductive LVal where
     | var (i : Nat)                                -- parameter / local variable
-    | deref (e : Expr)                             -- `*e`, `e[i]` (= `*(e + i)`)
+    | deref (e : Expr)                             -- `*e`, `e[i]` (= `*(e + i)`)  (objects of character type)
+    | slot (e : Expr) (k : Nat)                    -- `e->member` / `*e` for objects of pointer or word type: word `k` behind `e`
     deriving Repr
   inductive Args where
     | nil
@@ -104,6 +107,9 @@ structure Block where
   cells : List (Option UInt8)     -- `none` = uninitialised
   live : Bool := true
   writable : Bool := true
+  /-- objects made of pointers and integers (structs, arrays of pointers): one slot per scalar member, `.undef` =
+      uninitialised.  A block is used either through `cells` (character data) or through `slots`. -/
+  slots : List Val := []
   deriving DecidableEq, Repr
 
 abbrev Mem := List Block
@@ -204,6 +210,36 @@ def ptrAdd (m : Mem) (b : Nat) (o : Int) (d : Int) : R Val := do
   let o' := o + d
   if 0 ≤ o' && o' ≤ blk.cells.length then .ok (.ptr b o') else .error .ptrArith
 
+/-! ### word objects (struct members, arrays of pointers) -/
+
+def Mem.loadSlot (m : Mem) (b : Nat) (i : Int) : R Val := do
+  let blk ← m.block b
+  if i < 0 then .error (.oob "read below object") else
+  match blk.slots[i.toNat]? with
+  | none => .error (.oob "read beyond object")
+  | some .undef => .error .uninit
+  | some v => .ok v
+
+def Mem.storeSlot (m : Mem) (b : Nat) (i : Int) (v : Val) : R Mem := do
+  let blk ← m.block b
+  if !blk.writable then .error .readonly else
+  if i < 0 then .error (.oob "write below object") else
+  if i.toNat < blk.slots.length then .ok (m.set b { blk with slots := blk.slots.set i.toNat v })
+  else .error (.oob "write beyond object")
+
+/-- `&a[d]` on an array of words: the result must point into the array or one past its end -/
+def slotAdd (m : Mem) (b : Nat) (o : Int) (d : Int) : R Val := do
+  let blk ← m.block b
+  let o' := o + d
+  if 0 ≤ o' && o' ≤ blk.slots.length then .ok (.ptr b o') else .error .ptrArith
+
+/-- `strcmp` on byte strings: the difference of the first bytes that differ (as `unsigned char`), 0 for equal strings -/
+def cmpBytes : List UInt8 → List UInt8 → Int
+  | [], [] => 0
+  | [], b :: _ => -(b.toNat : Int)
+  | a :: _, [] => (a.toNat : Int)
+  | a :: as, b :: bs => if a == b then cmpBytes as bs else (a.toNat : Int) - (b.toNat : Int)
+
 /-- index of the first occurrence of `pat` in `s` -/
 def findSub (pat : List UInt8) : List UInt8 → Nat → Option Nat
   | [], i => if pat.isEmpty then some i else none
@@ -261,6 +297,10 @@ def builtin (f : String) (args : List Val) (m : Mem) : R (Val × Mem) :=
     let (m, nb) := m.alloc (s.length + 1)
     let m ← m.storeBytes nb 0 (s ++ [0])
     .ok (.ptr nb 0, m)
+  | "strcmp", [.ptr b o, .ptr b2 o2] => do
+    let s ← m.cstr b o
+    let t ← m.cstr b2 o2
+    .ok (.int (cmpBytes s t), m)
   | "free", [.null] => .ok (.int 0, m)
   | "free", [.ptr b o] => do
     let blk ← m.block b
@@ -356,6 +396,7 @@ def convert (ty : Ty) (v : Val) : R Val :=
 inductive Place where
   | var (i : Nat)
   | mem (b : Nat) (o : Int)
+  | slot (b : Nat) (i : Int)
 
 def readPlace (st : St) (ty : Ty) : Place → R Val
   | .var i => match st.loc[i]? with
@@ -365,6 +406,7 @@ def readPlace (st : St) (ty : Ty) : Place → R Val
   | .mem b o =>
     if ty == .ptr then .error (.typeErr "pointer in memory") else
     (st.mem.load8 b o).map (fun c => .int (if ty == .i8 then c else wrapTo ty c))
+  | .slot b i => st.mem.loadSlot b i
 
 def writePlace (st : St) (ty : Ty) (p : Place) (v : Val) : R St :=
   match p with
@@ -373,6 +415,10 @@ def writePlace (st : St) (ty : Ty) (p : Place) (v : Val) : R St :=
     match v with
     | .int n => if ty.bits == 8 then (st.mem.store8 b o n).map (fun m => { st with mem := m }) else .error (.typeErr "wide store")
     | _ => .error (.typeErr "pointer in memory")
+  | .slot b i =>
+    match v with
+    | .undef => .error .uninit
+    | v => (st.mem.storeSlot b i v).map (fun m => { st with mem := m })
 
 mutual
   def evalE : Expr → St → R (Val × St)
@@ -433,12 +479,31 @@ mutual
       let (vs, st) ← evalArgs args st
       let (r, m) ← builtin f vs st.mem
       .ok (r, { st with mem := m })
+    | .strlit bytes, st =>
+      .ok (.ptr st.mem.length 0, { st with mem := st.mem ++ [{ cells := (bytes ++ [0]).map some, writable := false }] })
+    | .sidx base idx stride, st => do
+      let (p, st) ← evalE base st
+      let (i, st) ← evalE idx st
+      match p, i with
+      | .ptr b o, .int n => do
+        let r ← slotAdd st.mem b o (n * stride)
+        .ok (r, st)
+      | .null, _ => .error .nullDeref
+      | .undef, _ | _, .undef => .error .uninit
+      | _, _ => .error (.typeErr "index of a word array")
   def evalL : LVal → St → R (Place × St)
     | .var i, st => .ok (.var i, st)
     | .deref e, st => do
       let (v, st) ← evalE e st
       match v with
       | .ptr b o => .ok (.mem b o, st)
+      | .null => .error .nullDeref
+      | .undef => .error .uninit
+      | .int _ => .error (.typeErr "dereference of an integer")
+    | .slot e k, st => do
+      let (v, st) ← evalE e st
+      match v with
+      | .ptr b o => .ok (.slot b (o + k), st)
       | .null => .error .nullDeref
       | .undef => .error .uninit
       | .int _ => .error (.typeErr "dereference of an integer")
